@@ -60,6 +60,9 @@ def wellformed(b):
 
 
 def run(ctx):
+    rollover_sets(ctx)
+    if ctx.violations:
+        return
     rng = ctx.rng
     nseq = 60 if ctx.tier == "quick" else 600
     for it in range(nseq):
@@ -263,6 +266,44 @@ def cleaning_parallel(ctx):
 TOK = ["hello", "world", "Привет", "мир", "λόγος", "2024", "3.14", ",", ".", "!", "?", " ", " ", "  ", "\u00a0", "\u3000", "\u0301", "😀", "漢字",
        "かな", "aaaaa", "aaa", "     ", "!!!!!!", "...", "\t", "\t", "\r", "\x01", "\x00", "\x00", "\x00\x00", "\x1f", "\x0b", "\x7f", "\u0378", "\uffff", "\ue000", "ß", "İ", "-", "—", "«", "x", "ab"]
 FRACS = {"0": "0/1", "1": "1/1", "0.5": "1/2", "0.25": "1/4", "0.75": "3/4"}
+
+
+def rollover_sets(ctx):
+    """subtract_lines and commoncrawl_dedupe keep their reference set in the same table as dedupe (key = MurmurHash64A(line, 1)): sets built
+    (props/c01.rollover_inputs) so that one doubling happens with a long occupied run at bucket 0 and wrapped entries behind it.  Every
+    subtrahend line must be removed; every line fed twice must come out once."""
+    import importlib
+    c01 = importlib.import_module("props.c01")
+    sf = os.path.join(ctx.tmp, "ro_sub.txt")
+    for N, r, t, w, order, ls in c01.rollover_inputs(ctx.rng, 6 if ctx.tier == "quick" else 60):
+        distinct = ls[:(len(ls) + 1) // 2]
+        open(sf, "wb").write(text(distinct))
+        others = [b"other line %d" % i for i in range(40)]
+        mixed = []
+        for i, l in enumerate(distinct):
+            mixed.append(l)
+            if i % 3 == 0:
+                mixed.append(others[(i // 3) % len(others)])
+        st, out, err = tool(ctx, "subtract_lines", [sf], text(mixed))
+        ctx.count("subtract_lines.rollover-set", 1, [(N, r, t, w, order)])
+        want = text([l for l in mixed if l not in set(distinct)])
+        if st != 0 or out != want:
+            leaked = [l for l in out.split(b"\n")[:-1] if l in set(distinct)][:3]
+            pvlib.report_violation(ctx, f"subtract-rollover:N={N},run={r},tail={t}+{w},{order}", {"argv": ["subtract_lines", "<sub>"], "sub_hex": hx(text(distinct))[:20000], "stdin_hex": hx(text(mixed))[:20000],
+                                   "status": st, "subtrahend_lines_that_came_through": [x.decode(errors="replace") for x in leaked]},
+                                   summary=f"subtract_lines with {len(distinct)} subtrahend lines (chosen so that its set doubles from {N} buckets with a run of {r} at bucket 0 and wrapped entries): "
+                                           f"{len(leaked)}+ subtrahend line(s) came through, e.g. {leaked[0] if leaked else None!r} (status {st})")
+            return
+        st, out, err = tool(ctx, "commoncrawl_dedupe", [], text(ls))
+        ctx.count("commoncrawl_dedupe.rollover-set", 1, [(N, r, t, w, order)])
+        if st != 0 or out != text(distinct):
+            ol = out.split(b"\n")[:-1]
+            twice = [l for l in set(ol) if ol.count(l) > 1][:3]
+            pvlib.report_violation(ctx, f"cc-rollover:N={N},run={r},tail={t}+{w},{order}", {"argv": ["commoncrawl_dedupe"], "stdin_hex": hx(text(ls))[:40000], "status": st,
+                                   "lines_out": len(ol), "distinct_in": len(distinct), "emitted_twice": [x.decode(errors="replace") for x in twice]},
+                                   summary=f"commoncrawl_dedupe on {len(distinct)} distinct lines fed twice (set doubling from {N} buckets with a run of {r} at bucket 0): {len(ol)} lines out"
+                                           + (f", {twice[0]!r} twice" if twice else "") + f" (status {st})")
+            return
 
 
 def cleaning_model(ctx):
